@@ -72,6 +72,7 @@ def analyze_dml(case, sm):
     regs = tc_events(tr, st["seq_from"], st["seq_to"], "BranchRegister")
     granted = [r for r in regs if r["outcome"] == "ok"]
     kinds = [meta["cols"][i]["kind"] for i in pk]
+    res["sep_key"] = any(v[0] == "s" and any(ch in bytes.fromhex(v[1]).decode("utf-8", "replace") for ch in ",_;:") for k in changed for v in k)
     sent = [k for r in granted for k in parse_key_text(r.get("lock_key") or "", kinds)]
     res["sent"] = len(sent)
     for k in changed:
@@ -272,6 +273,7 @@ def run(chk, only=None):
         cases = U.replay_atp(chk, only)
     findings = vlib.known_findings("C03")
     preds = {f["pred"] for f in findings}
+    c18_preds = {f["pred"] for f in vlib.known_findings("C18")}
     lrecs, srecs, trecs, nfail, niso, nwritten = [], [], [], 0, 0, 0
     seen = set()
 
@@ -311,10 +313,14 @@ def run(chk, only=None):
                 if two and not r["oracle"]:
                     r["oracle"].append("the same row got different lock key texts from different statement forms: %s" % two[:3])
                     key_texts = {}
-            listed = r["pred"] and r["pred"] in preds
-            c18_listed = r["pred"] in {f["pred"] for f in vlib.known_findings("C18")}
-            if r["oracle"] and not (listed or c18_listed):
-                flag(c, r["oracle"], {"failing_statement": si})
+            bad = r["oracle"]
+            if r["pred"] and (r["pred"] in preds or r["pred"] in c18_preds):
+                # a listed finding explains exactly one kind of failure: a written row no lock key names (or the C18 panic)
+                bad = [m for m in r["oracle"] if not ("no lock key sent names it" in m or m.startswith("the statement panicked"))]
+                if r["pred"] == "lockkey.separator" and not r.get("sep_key"):
+                    bad = r["oracle"]      # the region is: a written row whose string key holds one of , _ ; :
+            if bad:
+                flag(c, bad, {"failing_statement": si})
             if r.get("lcase") and not r["pred"]:
                 lrecs.append((ci, si, r))
             if r.get("scase") and not r["pred"]:
